@@ -13,12 +13,21 @@ Definition erase_ok (s : state) (e : erase_ev) : Prop :=
   end.
 Definition KE (s : state) : Prop := forall e, In e (s_erases s) -> erase_ok s e.
 
+(* the request headers written so far: (thread, tag in the header) *)
+Definition writes (tr : list tev) : list (tid * Z) :=
+  flat_map (fun e => match e with TvWrite t tag _ _ _ => [(t, tag)] | _ => [] end) tr.
+Definition write_ok (s : state) (w : tid * Z) : Prop :=
+  c_made (s_ctx s (fst w)) = true /\ snd w = c_tag0 (s_ctx s (fst w)).
+Definition KW (s : state) : Prop := forall w, In w (writes (s_trace s)) -> write_ok s w.
+
 Definition stable (s s' : state) : Prop :=
   forall x, c_made (s_ctx s x) = true -> c_made (s_ctx s' x) = true /\ c_tag0 (s_ctx s' x) = c_tag0 (s_ctx s x).
 
 (* s' extends s: created contexts keep their tag, and every new erase entry is justified *)
 Definition k_ext (s s' : state) : Prop :=
-  stable s s' /\ exists new, s_erases s' = new ++ s_erases s /\ forall e, In e new -> erase_ok s' e.
+  stable s s' /\
+  (exists new, s_erases s' = new ++ s_erases s /\ forall e, In e new -> erase_ok s' e) /\
+  (exists nw, writes (s_trace s') = nw ++ writes (s_trace s) /\ forall w, In w nw -> write_ok s' w).
 
 Lemma erase_ok_stable s s' e : stable s s' -> erase_ok s e -> erase_ok s' e.
 Proof.
@@ -28,36 +37,50 @@ Proof.
   - congruence.
 Qed.
 
+Lemma write_ok_stable s s' w : stable s s' -> write_ok s w -> write_ok s' w.
+Proof. intros St [M H]. destruct (St _ M) as [M' T']. split; [exact M'|congruence]. Qed.
+
 Lemma k_ext_refl s : k_ext s s.
-Proof. split; [intros x M; auto|]. exists []. split; [reflexivity|intros e []]. Qed.
+Proof.
+  split; [intros x M; auto|]. split; [exists []|exists []]; (split; [reflexivity|intros e []]).
+Qed.
 
 Lemma k_ext_trans s1 s2 s3 : k_ext s1 s2 -> k_ext s2 s3 -> k_ext s1 s3.
 Proof.
-  intros [S1 (n1 & E1 & O1)] [S2 (n2 & E2 & O2)]. split.
+  intros [S1 [(n1 & E1 & O1) (w1 & F1 & P1)]] [S2 [(n2 & E2 & O2) (w2 & F2 & P2)]]. split; [|split].
   - intros x M. destruct (S1 _ M) as [M2 T2]. destruct (S2 _ M2) as [M3 T3]. split; [exact M3|congruence].
   - exists (n2 ++ n1). split; [rewrite E2, E1, app_assoc; reflexivity|].
     intros e H. apply in_app_iff in H. destruct H as [H|H]; [apply O2; exact H|].
     eapply erase_ok_stable; [exact S2|apply O1; exact H].
+  - exists (w2 ++ w1). split; [rewrite F2, F1, app_assoc; reflexivity|].
+    intros e H. apply in_app_iff in H. destruct H as [H|H]; [apply P2; exact H|].
+    eapply write_ok_stable; [exact S2|apply P1; exact H].
 Qed.
 
 Lemma KE_ext s s' : KE s -> k_ext s s' -> KE s'.
 Proof.
-  intros K [S (n & E & O)] e H. rewrite E in H. apply in_app_iff in H. destruct H as [H|H]; [apply O; exact H|].
+  intros K [S [(n & E & O) _]] e H. rewrite E in H. apply in_app_iff in H. destruct H as [H|H]; [apply O; exact H|].
   eapply erase_ok_stable; [exact S|apply K; exact H].
+Qed.
+Lemma KW_ext s s' : KW s -> k_ext s s' -> KW s'.
+Proof.
+  intros K [S [_ (n & E & O)]] e H. rewrite E in H. apply in_app_iff in H. destruct H as [H|H]; [apply O; exact H|].
+  eapply write_ok_stable; [exact S|apply K; exact H].
 Qed.
 
 (* operations that touch neither contexts nor the erase log *)
-Definition same_e (s s' : state) : Prop := (forall x, s_ctx s' x = s_ctx s x) /\ s_erases s' = s_erases s.
-Lemma same_e_refl s : same_e s s. Proof. split; reflexivity. Qed.
+Definition same_e (s s' : state) : Prop :=
+  (forall x, s_ctx s' x = s_ctx s x) /\ (s_erases s' = s_erases s /\ writes (s_trace s') = writes (s_trace s)).
+Lemma same_e_refl s : same_e s s. Proof. repeat split; reflexivity. Qed.
 Lemma same_e_trans a b c : same_e a b -> same_e b c -> same_e a c.
-Proof. intros [A1 A2] [B1 B2]. split; [intros x; rewrite B1; apply A1|congruence]. Qed.
+Proof. intros [A1 [A2 A3]] [B1 [B2 B3]]. split; [intros x; rewrite B1; apply A1|split; congruence]. Qed.
 Lemma k_ext_same s s' : same_e s s' -> k_ext s s'.
 Proof.
-  intros [C E]. split; [intros x M; rewrite C; auto|]. exists []. split; [exact E|intros e []].
+  intros [C [E W]]. split; [intros x M; rewrite C; auto|]. split; [exists []|exists []]; (split; [assumption|intros e []]).
 Qed.
 
-Lemma se_wake s h e : same_e s (wake s h e). Proof. split; reflexivity. Qed.
-Lemma se_set_err s t e : same_e s (set_err s t e). Proof. split; reflexivity. Qed.
+Lemma se_wake s h e : same_e s (wake s h e). Proof. repeat split; reflexivity. Qed.
+Lemma se_set_err s t e : same_e s (set_err s t e). Proof. repeat split; reflexivity. Qed.
 Lemma se_interrupt s h e : same_e s (interrupt s h e).
 Proof.
   unfold interrupt. destruct (t_stat (s_thr s h)).
@@ -67,36 +90,44 @@ Qed.
 Lemma se_notify_one s : same_e s (notify_one s).
 Proof. unfold notify_one. destruct (s_waitq s). apply same_e_refl. apply se_wake. Qed.
 Lemma se_usleep_ret s t : same_e s (fst (usleep_ret s t)).
-Proof. unfold usleep_ret. destruct (t_err (s_thr s t) =? 0); cbn [fst]; split; reflexivity. Qed.
+Proof. unfold usleep_ret. destruct (t_err (s_thr s t) =? 0); cbn [fst]; repeat split; reflexivity. Qed.
 Lemma se_cvwait_ret s t : same_e s (fst (cvwait_ret s t)).
 Proof.
   unfold cvwait_ret. pose proof (se_usleep_ret s t) as H.
   destruct (usleep_ret s t) as [s1 r]. cbn [fst] in H.
-  destruct (r =? 0); cbn [fst]; [destruct H; split; assumption|].
+  destruct (r =? 0); cbn [fst]; [destruct H as [H1 [H2 H3]]; repeat split; assumption|].
   destruct (s_errno s1 =? -1); exact H.
 Qed.
-Lemma se_do_send s3 t tag dl : same_e s3 (fst (do_send s3 t tag dl)).
+Lemma k_do_send s3 t tag dl :
+  c_made (s_ctx s3 t) = true -> tag = c_tag0 (s_ctx s3 t) ->
+  k_ext s3 (fst (do_send s3 t tag dl)) /\ (forall x, s_ctx (fst (do_send s3 t tag dl)) x = s_ctx s3 x).
 Proof.
-  unfold do_send.
-  destruct (dl <? s_now s3); [split; reflexivity|].
-  destruct (4294967295 <? k_req (nth t (s_calls s3) dummy_call)); [split; reflexivity|].
+  intros M E. unfold do_send.
+  destruct (dl <? s_now s3); [split; [apply k_ext_same; repeat split; reflexivity|reflexivity]|].
+  destruct (4294967295 <? k_req (nth t (s_calls s3) dummy_call)); [split; [apply k_ext_same; repeat split; reflexivity|reflexivity]|].
   set (s3a := if s_shut s3 then set_errno s3 EPIPE else s3).
-  assert (A : same_e s3 s3a) by (unfold s3a; destruct (s_shut s3); split; reflexivity).
+  assert (A : same_e s3 s3a) by (unfold s3a; destruct (s_shut s3); repeat split; reflexivity).
   match goal with |- context [add_trace s3a ?e] => set (s3b := add_trace s3a e) end.
-  assert (B : same_e s3 s3b) by (eapply same_e_trans; [exact A|split; reflexivity]).
-  match goal with |- context [if ?c then (s3b, 0) else _] => destruct c end; cbn [fst]; [exact B|].
-  eapply same_e_trans; [exact B|split; reflexivity].
+  assert (B : k_ext s3 s3b /\ forall x, s_ctx s3b x = s_ctx s3 x).
+  { destruct A as [A1 [A2 A3]]. split; [|intros x; apply A1]. split; [intros x Mx; change (s_ctx s3b x) with (s_ctx s3a x); rewrite A1; auto|].
+    split.
+    - exists []. split; [exact A2|intros e []].
+    - exists [(t, tag)]. split; [change (writes (s_trace s3b)) with ((t, tag) :: writes (s_trace s3a)); rewrite A3; reflexivity|].
+      intros w [<-|[]]. split; cbn [fst snd]; change (s_ctx s3b t) with (s_ctx s3a t); rewrite A1; assumption. }
+  destruct B as [B1 B2].
+  match goal with |- context [if ?c then (s3b, 0) else _] => destruct c end; cbn [fst]; [split; assumption|].
+  split; [eapply k_ext_trans; [exact B1|apply k_ext_same; repeat split; reflexivity]|exact B2].
 Qed.
 Lemma se_ret_mid s r w (rd : bool) : same_e s (ret_mid s r w rd).
 Proof.
   unfold ret_mid. set (s1 := if rd then set_rlock s None else s).
-  assert (H1 : same_e s s1) by (unfold s1; destruct rd; split; reflexivity).
+  assert (H1 : same_e s s1) by (unfold s1; destruct rd; repeat split; reflexivity).
   assert (H2 : same_e s (if w then notify_one s1 else s1)).
   { destruct w; [|exact H1]. eapply same_e_trans; [exact H1|apply se_notify_one]. }
   set (s2 := if w then notify_one s1 else s1) in *.
   destruct (r <? 0); [|exact H2].
   destruct (s_errno s2 =? ECONNRESET); [exact H2|].
-  eapply same_e_trans; [exact H2|split; reflexivity].
+  eapply same_e_trans; [exact H2|repeat split; reflexivity].
 Qed.
 
 Lemma k_ext_ctx_upd s g c' :
@@ -104,30 +135,33 @@ Lemma k_ext_ctx_upd s g c' :
 Proof.
   intros Em E0. split.
   - intros x M. rewrite ctx_upd_ctx. destruct (Nat.eqb_spec x g); [subst; split; congruence|auto].
-  - exists []. split; [reflexivity|intros e []].
+  - split; [exists []|exists []]; (split; [reflexivity|intros e []]).
 Qed.
 Lemma k_ext_ctx_new s t cn : c_made (s_ctx s t) = false -> k_ext s (upd_ctx s t cn).
 Proof.
   intros F. split.
   - intros x M. rewrite ctx_upd_ctx. destruct (Nat.eqb_spec x t); [subst; congruence|auto].
-  - exists []. split; [reflexivity|intros e []].
+  - split; [exists []|exists []]; (split; [reflexivity|intros e []]).
 Qed.
 Lemma k_ext_erase s b g ad : erase_ok s (mkErase b g ad) -> k_ext s (erase_tag s b g ad).
 Proof.
-  intros O. split; [intros x M; auto|]. exists [mkErase b g ad]. split; [reflexivity|].
-  intros e [<-|[]]. exact O.
+  intros O. split; [intros x M; auto|]. split.
+  - exists [mkErase b g ad]. split; [reflexivity|]. intros e [<-|[]]. exact O.
+  - exists []. split; [reflexivity|intros e []].
 Qed.
 Lemma k_ext_ret_call s t r w rd : k_ext s (ret_call s t r w rd).
 Proof.
   destruct (ret_call_view s t r w rd _ eq_refl) as (_ & u2 & _).
-  destruct (se_ret_mid s r w rd) as [_ E].
+  destruct (se_ret_mid s r w rd) as [_ [E W]].
   split.
   - intros x M. rewrite u2. destruct (Nat.eqb_spec x t); [subst; auto|auto].
-  - exists []. split; [|intros e []]. cbn [app]. unfold ret_call, park, sleep, add_trace, upd_ctx. cbn.
-    exact E.
+  - split.
+    + exists []. split; [|intros e []]. cbn [app]. unfold ret_call, park, sleep, add_trace, upd_ctx. cbn. exact E.
+    + exists []. split; [|intros e []]. cbn [app].
+      change (writes (s_trace (ret_call s t r w rd))) with (writes (s_trace (ret_mid s r w rd))). exact W.
 Qed.
 
-Ltac kx_same := apply k_ext_same; split; reflexivity.
+Ltac kx_same := apply k_ext_same; repeat split; reflexivity.
 
 (* ---- the micro steps ------------------------------------------------------------------------------------- *)
 Lemma k_body_end s t otag targ size rd : k_ext s (body_end s t otag targ size rd).
@@ -149,12 +183,12 @@ Proof.
   assert (K6 : k_ext s s6) by (eapply k_ext_trans; [exact K5|apply (k_ext_ctx_upd s5 targ (cset_phase (s_ctx s5 targ) COLLECTED)); reflexivity]).
   assert (Ret : forall r0 a b, k_ext s (ret_call s6 t r0 a b)) by (intros; eapply k_ext_trans; [exact K6|apply k_ext_ret_call]).
   assert (RetE : forall e r0 a b, k_ext s (ret_call (set_errno s6 e) t r0 a b)).
-  { intros. eapply k_ext_trans; [exact K6|]. eapply k_ext_trans; [apply k_ext_same with (s' := set_errno s6 e); split; reflexivity|apply k_ext_ret_call]. }
+  { intros. eapply k_ext_trans; [exact K6|]. eapply k_ext_trans; [apply k_ext_same with (s' := set_errno s6 e); repeat split; reflexivity|apply k_ext_ret_call]. }
   destruct (otag =? c_tag (s_ctx s6 t)).
   - destruct (c_th (s_ctx s4 targ)) as [h|]; [destruct (Nat.eqb h t)|]; auto.
   - destruct (c_th (s_ctx s4 targ)) as [h|]; auto.
     eapply k_ext_trans; [exact K6|]. apply k_ext_same.
-    destruct (se_interrupt s6 h EINTR) as [A B]. split; [intros x; apply A|exact B].
+    apply se_interrupt.
 Qed.
 
 Lemma k_hdr_fail s t otag :
@@ -171,10 +205,10 @@ Proof.
   match goal with |- context [set_stmo (add_trace s ?e) MAX64] => set (s1 := set_stmo (add_trace s e) MAX64) end.
   set (s2 := upd_ctx s1 t (cset_tag (s_ctx s1 t) (hdr_tag (s_hdr s1)))).
   assert (K2 : k_ext s s2).
-  { eapply k_ext_trans; [apply k_ext_same with (s' := s1); split; reflexivity|
+  { eapply k_ext_trans; [apply k_ext_same with (s' := s1); repeat split; reflexivity|
       apply (k_ext_ctx_upd s1 t (cset_tag (s_ctx s1 t) (hdr_tag (s_hdr s1)))); reflexivity]. }
   eapply k_ext_trans; [exact K2|].
-  eapply k_ext_trans; [apply k_ext_same with (s' := set_errno (stream_shutdown s2 t) ECONNRESET); split; reflexivity|].
+  eapply k_ext_trans; [apply k_ext_same with (s' := set_errno (stream_shutdown s2 t) ECONNRESET); repeat split; reflexivity|].
   apply k_hdr_fail.
   - change (c_made (s_ctx s2 t) = true). unfold s2. rewrite ctx_upd_ctx, Nat.eqb_refl. exact M.
   - change (otag = c_tag0 (s_ctx s2 t)). unfold s2. rewrite ctx_upd_ctx, Nat.eqb_refl. exact E.
@@ -197,17 +231,17 @@ Proof.
   set (s2 := upd_ctx s1 t (cset_tag (s_ctx s1 t) g)).
   assert (I2 : Inv s2) by (eapply Inv_set_own_tag; eauto).
   assert (K2 : k_ext s s2).
-  { eapply k_ext_trans; [apply k_ext_same with (s' := s1); split; reflexivity|
+  { eapply k_ext_trans; [apply k_ext_same with (s' := s1); repeat split; reflexivity|
       apply (k_ext_ctx_upd s1 t (cset_tag (s_ctx s1 t) g)); reflexivity]. }
   assert (M2 : c_made (s_ctx s2 t) = true) by (unfold s2; rewrite ctx_upd_ctx, Nat.eqb_refl; exact M).
   assert (E2 : otag = c_tag0 (s_ctx s2 t)) by (unfold s2; rewrite ctx_upd_ctx, Nat.eqb_refl; exact E).
   destruct (negb ((hdr_magic (s_hdr s1) =? MAGIC) && (hdr_version (s_hdr s1) =? VERSION))).
   { eapply k_ext_trans; [exact K2|].
-    eapply k_ext_trans; [apply k_ext_same with (s' := set_errno (stream_shutdown s2 t) ECONNRESET); split; reflexivity|].
+    eapply k_ext_trans; [apply k_ext_same with (s' := set_errno (stream_shutdown s2 t) ECONNRESET); repeat split; reflexivity|].
     apply k_hdr_fail; [exact M2|exact E2]. }
   destruct (map_find g (s_map s2)) as [targ|] eqn:F.
   2:{ eapply k_ext_trans; [exact K2|]. eapply k_ext_trans; [apply (k_ext_erase s2 t otag None); split; [exact M2|exact E2]|].
-      eapply k_ext_trans; [apply k_ext_same with (s' := set_errno (erase_tag s2 t otag None) ENOENT); split; reflexivity|apply k_ext_ret_call]. }
+      eapply k_ext_trans; [apply k_ext_same with (s' := set_errno (erase_tag s2 t otag None) ENOENT); repeat split; reflexivity|apply k_ext_ret_call]. }
   apply map_find_In in F. destruct (i_map _ I2 _ _ F) as (Tin & Tt0 & _).
   destruct (i_ctx _ I2 _ Tin) as (Tm & _).
   set (s3 := erase_tag s2 t g (Some targ)).
@@ -217,14 +251,14 @@ Proof.
   set (s5 := upd_ctx s4 targ (cset_hoff (cset_buf (s_ctx s4 targ) []) (length (s_consumed s4)))).
   match goal with |- context [set_stmo s5 ?v] => set (s6 := set_stmo s5 v) end.
   assert (K6 : k_ext s s6).
-  { eapply k_ext_trans; [exact K3|]. eapply k_ext_trans; [apply k_ext_same with (s' := s4); split; reflexivity|].
+  { eapply k_ext_trans; [exact K3|]. eapply k_ext_trans; [apply k_ext_same with (s' := s4); repeat split; reflexivity|].
     eapply k_ext_trans; [apply (k_ext_ctx_upd s4 targ (cset_hoff (cset_buf (s_ctx s4 targ) []) (length (s_consumed s4)))); reflexivity|].
-    apply k_ext_same; split; reflexivity. }
+    apply k_ext_same; repeat split; reflexivity. }
   destruct (Z.to_nat (hdr_size (s_hdr s1))).
   { eapply k_ext_trans; [exact K6|apply k_body_end]. }
   destruct (s_shut s6).
   { eapply k_ext_trans; [exact K6|apply k_body_end]. }
-  eapply k_ext_trans; [exact K6|]. apply k_ext_same; split; reflexivity.
+  eapply k_ext_trans; [exact K6|]. apply k_ext_same; repeat split; reflexivity.
 Qed.
 
 Lemma k_micro s t : Inv s -> k_ext s (micro s t).
@@ -232,7 +266,7 @@ Proof.
   intros I. unfold micro.
   destruct (t_pc (s_thr s t)) eqn:E; change (t_pc (s_thr s t)) with (pcof s t) in E.
   - destruct (0 <? k_start (nth t (s_calls s) dummy_call)); kx_same.
-  - apply k_ext_same. destruct (se_usleep_ret s t) as [A B]. split; [intros x; apply A|exact B].
+  - apply k_ext_same. apply se_usleep_ret.
   - (* step_call *)
     assert (F : c_made (s_ctx s t) = false).
     { destruct (c_made (s_ctx s t)) eqn:M; [|reflexivity]. pose proof (i_pre _ I _ M) as H. rewrite E in H. discriminate. }
@@ -241,22 +275,24 @@ Proof.
     { kx_same. }
     match goal with |- context [upd_ctx (set_mtag s ?tg) t ?c] => set (s2 := upd_ctx (set_mtag s tg) t c); set (tag := tg) in *; pose (cn := c) end.
     assert (K2 : k_ext s s2).
-    { eapply k_ext_trans; [apply k_ext_same with (s' := set_mtag s tag); split; reflexivity|apply (k_ext_ctx_new (set_mtag s tag) t cn); exact F]. }
+    { eapply k_ext_trans; [apply k_ext_same with (s' := set_mtag s tag); repeat split; reflexivity|apply (k_ext_ctx_new (set_mtag s tag) t cn); exact F]. }
     destruct (map_find tag (s_map s2)).
     { eapply k_ext_trans; [exact K2|kx_same]. }
     set (s3 := set_map s2 (s_map s2 ++ [(tag, t)])).
-    match goal with |- context [do_send s3 t tag ?d] => pose proof (se_do_send s3 t tag d) as V; destruct (do_send s3 t tag d) as [s4 r2] end.
-    cbn [fst] in V. destruct V as [V1 V2].
+    assert (C3 : s_ctx s3 t = cn) by (unfold s3, s2; cbn; unfold updn; rewrite Nat.eqb_refl; reflexivity).
+    match goal with |- context [do_send s3 t tag ?d] =>
+      pose proof (k_do_send s3 t tag d) as V; destruct (do_send s3 t tag d) as [s4 r2] end.
+    cbn [fst] in V. destruct V as [V0 V1]; [rewrite C3; reflexivity|rewrite C3; reflexivity|].
     assert (K4 : k_ext s s4).
-    { eapply k_ext_trans; [exact K2|]. apply k_ext_same. split; [intros x; rewrite V1; reflexivity|rewrite V2; reflexivity]. }
-    assert (C4 : s_ctx s4 t = cn) by (rewrite V1; unfold s3, s2; cbn; unfold updn; rewrite Nat.eqb_refl; reflexivity).
+    { eapply k_ext_trans; [exact K2|]. eapply k_ext_trans; [apply k_ext_same with (s' := s3); repeat split; reflexivity|exact V0]. }
+    assert (C4 : s_ctx s4 t = cn) by (rewrite V1; exact C3).
     destruct (r2 <? 0).
     { eapply k_ext_trans; [exact K4|]. eapply k_ext_trans; [apply (k_ext_erase s4 t tag None)|apply k_ext_ret_call].
       split; cbn [e_by e_adopt e_tag]; rewrite C4; reflexivity. }
     set (s5 := upd_ctx s4 t (cset_phase (s_ctx s4 t) ISSUED)).
     assert (K5 : k_ext s s5) by (eapply k_ext_trans; [exact K4|apply (k_ext_ctx_upd s4 t (cset_phase (s_ctx s4 t) ISSUED)); reflexivity]).
     assert (RetE : forall e r0 a b, k_ext s (ret_call (set_errno s5 e) t r0 a b)).
-    { intros. eapply k_ext_trans; [exact K5|]. eapply k_ext_trans; [apply k_ext_same with (s' := set_errno s5 e); split; reflexivity|apply k_ext_ret_call]. }
+    { intros. eapply k_ext_trans; [exact K5|]. eapply k_ext_trans; [apply k_ext_same with (s' := set_errno s5 e); repeat split; reflexivity|apply k_ext_ret_call]. }
     destruct (map_find (c_tag (s_ctx s5 t)) (s_map s5)); [|apply RetE].
     destruct (c_phase (s_ctx s5 t)); try apply RetE; (eapply k_ext_trans; [exact K5|kx_same]).
   - (* step_waitloop *)
@@ -268,7 +304,7 @@ Proof.
                             end)).
     { intros s1 K1. destruct (s_rlock s1); (eapply k_ext_trans; [exact K1|kx_same]). }
     assert (RetE : forall e r0 a b, k_ext s (ret_call (set_errno s e) t r0 a b)).
-    { intros. eapply k_ext_trans; [apply k_ext_same with (s' := set_errno s e); split; reflexivity|apply k_ext_ret_call]. }
+    { intros. eapply k_ext_trans; [apply k_ext_same with (s' := set_errno s e); repeat split; reflexivity|apply k_ext_ret_call]. }
     destruct (c_phase (s_ctx s t)); try apply RetE.
     + apply Park. apply k_ext_ctx_upd; reflexivity.
     + apply Park. apply k_ext_refl.
@@ -278,8 +314,8 @@ Proof.
     assert (Tin : inside (pcof s t) = true) by (rewrite E; reflexivity).
     destruct (i_ctx _ I _ Tin) as (M & _).
     assert (Ft : c_tag (s_ctx s t) = c_tag0 (s_ctx s t)) by (apply (i_ftag _ I); rewrite E; reflexivity).
-    pose proof (se_cvwait_ret s t) as V. destruct (cvwait_ret s t) as [s1 r]. cbn [fst] in V. destruct V as [V1 V2].
-    assert (K1 : k_ext s s1) by (apply k_ext_same; split; [exact V1|exact V2]).
+    pose proof (se_cvwait_ret s t) as V. destruct (cvwait_ret s t) as [s1 r]. cbn [fst] in V. pose proof V as [V1 _].
+    assert (K1 : k_ext s s1) by (apply k_ext_same; exact V).
     match goal with |- context [if ?c then ret_call s1 t _ true false else _] => destruct c end.
     { eapply k_ext_trans; [exact K1|apply k_ext_ret_call]. }
     destruct (r =? -1); [|eapply k_ext_trans; [exact K1|kx_same]].
@@ -288,17 +324,17 @@ Proof.
     { eapply k_ext_trans; [exact K1|apply (k_ext_erase s1 t (c_tag (s_ctx s1 t)) None)]. split; cbn [e_by e_adopt e_tag]; rewrite V1; [exact M|exact Ft]. }
     match goal with |- context [if ?c then set_pc s2 t _ else _] => destruct c end.
     + eapply k_ext_trans; [exact K2|kx_same].
-    + eapply k_ext_trans; [exact K2|]. eapply k_ext_trans; [apply k_ext_same with (s' := set_errno s2 ETIMEDOUT); split; reflexivity|apply k_ext_ret_call].
+    + eapply k_ext_trans; [exact K2|]. eapply k_ext_trans; [apply k_ext_same with (s' := set_errno s2 ETIMEDOUT); repeat split; reflexivity|apply k_ext_ret_call].
   - (* step_readerloop *)
     unfold step_readerloop.
     assert (R : reader_otag (pcof s t) = Some otag) by (rewrite E; reflexivity).
     destruct (reader_made s t otag I R) as [M Eo].
     set (s1 := set_hdr s (repeat 0 8 ++ skipn 8 (s_hdr s))).
     destruct (c_dl (s_ctx s t) <? s_now s).
-    { eapply k_ext_trans; [apply k_ext_same with (s' := set_errno s1 ETIMEDOUT); split; reflexivity|apply k_hdr_fail; [exact M|exact Eo]]. }
+    { eapply k_ext_trans; [apply k_ext_same with (s' := set_errno s1 ETIMEDOUT); repeat split; reflexivity|apply k_hdr_fail; [exact M|exact Eo]]. }
     match goal with |- context [set_stmo s1 ?v] => set (s2 := set_stmo s1 v) end.
     destruct (s_shut s2).
-    { eapply k_ext_trans; [apply k_ext_same with (s' := s2); split; reflexivity|apply k_hdr_short; [exact M|exact Eo]]. }
+    { eapply k_ext_trans; [apply k_ext_same with (s' := s2); repeat split; reflexivity|apply k_hdr_short; [exact M|exact Eo]]. }
     kx_same.
   - (* step_hdrread *)
     unfold step_hdrread.
@@ -319,9 +355,9 @@ Proof.
     destruct (read_status (s_now s) dl (HDRLEN - (got + length g)) sc').
     + eapply k_ext_trans; [exact K1|apply k_hdr_complete; [exact I1|rewrite P1; reflexivity|rewrite P1; reflexivity]].
     + eapply k_ext_trans; [exact K1|apply k_hdr_short; [exact M|exact Eo]].
-    + eapply k_ext_trans; [exact K1|]. eapply k_ext_trans; [apply k_ext_same with (s' := set_errno s1 ETIMEDOUT); split; reflexivity|apply k_hdr_short; [exact M|exact Eo]].
+    + eapply k_ext_trans; [exact K1|]. eapply k_ext_trans; [apply k_ext_same with (s' := set_errno s1 ETIMEDOUT); repeat split; reflexivity|apply k_hdr_short; [exact M|exact Eo]].
     + eapply k_ext_trans; [exact K1|kx_same].
-  - apply k_ext_same. destruct (se_usleep_ret s t) as [A B]. split; [intros x; apply A|exact B].
+  - apply k_ext_same. apply se_usleep_ret.
   - (* step_bodyread *)
     unfold step_bodyread.
     destruct (stake (s_now s) need (s_script s)) as [g sc'].
@@ -335,9 +371,9 @@ Proof.
     destruct (read_status (s_now s) dl (need - length g) sc').
     + eapply k_ext_trans; [exact K3|apply k_body_end].
     + eapply k_ext_trans; [exact K3|apply k_body_end].
-    + eapply k_ext_trans; [exact K3|]. eapply k_ext_trans; [apply k_ext_same with (s' := set_errno s3 ETIMEDOUT); split; reflexivity|apply k_body_end].
+    + eapply k_ext_trans; [exact K3|]. eapply k_ext_trans; [apply k_ext_same with (s' := set_errno s3 ETIMEDOUT); repeat split; reflexivity|apply k_body_end].
     + eapply k_ext_trans; [exact K3|kx_same].
-  - apply k_ext_same. destruct (se_usleep_ret s t) as [A B]. split; [intros x; apply A|exact B].
+  - apply k_ext_same. apply se_usleep_ret.
   - unfold park. apply k_ext_same. destruct (se_usleep_ret s t) as [A B]. split; [intros x; apply A|exact B].
 Qed.
 
@@ -354,13 +390,27 @@ Proof.
   - intros H; inversion H; subst. exact K.
 Qed.
 
-Lemma IK_run s es s' : Inv s -> KE s -> run_events s es = Some s' -> Inv s' /\ KE s'.
+Lemma KW_step s e s' : Inv s -> KW s -> step s e = Some s' -> KW s'.
 Proof.
-  revert s. induction es as [|e r IH]; cbn; intros s I K H.
+  intros I K. destruct e as [t|t|d|]; unfold step.
+  - destruct (Nat.ltb t (nthreads s)); [|intros H; discriminate H].
+    destruct (t_stat (s_thr s t)); [|intros H; discriminate H].
+    intros H; inversion H; subst. eapply KW_ext; [exact K|apply k_micro; exact I].
+  - destruct (Nat.ltb t (nthreads s)); [|intros H; discriminate H].
+    destruct (t_stat (s_thr s t)); [intros H; discriminate H|].
+    destruct (dl <=? s_now s); [|intros H; discriminate H]. intros H; inversion H; subst. exact K.
+  - destruct (0 <=? d); [|intros H; discriminate H]. intros H; inversion H; subst. exact K.
+  - intros H; inversion H; subst. exact K.
+Qed.
+
+Lemma IK_run s es s' : Inv s -> KE s -> KW s -> run_events s es = Some s' -> Inv s' /\ KE s' /\ KW s'.
+Proof.
+  revert s. induction es as [|e r IH]; cbn; intros s I K W H.
   - inversion H; subst; auto.
-  - destruct (step s e) eqn:E; [|discriminate]. eapply IH; [| |exact H].
+  - destruct (step s e) eqn:E; [|discriminate]. eapply IH; [| | |exact H].
     + eapply Inv_step; eauto.
     + eapply KE_step; eauto.
+    + eapply KW_step; eauto.
 Qed.
 
 (* failure isolation: (i) a thread only ever erases its own tag — or, as the reader, the tag of the context it
@@ -378,11 +428,27 @@ Lemma failure_isolated_all :
     (forall t r p k, In (t, r, p) (rets (s_trace s)) -> ~ In (k, t) (s_map s)).
 Proof.
   intros calls script es s H.
-  destruct (IK_run _ _ _ (Inv_init calls script) (fun e (F : In e []) => match F with end) H) as [I K].
+  destruct (IK_run _ _ _ (Inv_init calls script) (fun e (F : In e []) => match F with end)
+                   (fun w (F : In w []) => match F with end) H) as (I & K & _).
   destruct (IJ_run (flat script) _ _ _ (Inv_init calls script) (J_init true calls script) H) as [_ Jc].
   split; [|split].
   - intros e He. destruct (K e He) as [_ O]. destruct (e_adopt e); [apply O|exact O].
   - intros t g size need. apply (j_body _ _ _ Jc).
   - intros t r p k Hr Hm. destruct (j_ret _ _ _ Jc t r p Hr) as [D _].
     destruct (i_map _ I _ _ Hm) as (a & _). rewrite D in a. discriminate.
+Qed.
+
+(* the tag a call wrote into its request header is the tag its context carries (so `own response` is
+   about the tag the peer saw) *)
+Lemma request_tag_all :
+  forall calls script es s,
+    run_events (init true calls script) es = Some s ->
+    forall t tag size ret now, In (TvWrite t tag size ret now) (s_trace s) -> tag = c_tag0 (s_ctx s t).
+Proof.
+  intros calls script es s H t tag size ret now Hin.
+  destruct (IK_run _ _ _ (Inv_init calls script) (fun e (F : In e []) => match F with end)
+                   (fun w (F : In w []) => match F with end) H) as (_ & _ & W).
+  assert (Hw : In (t, tag) (writes (s_trace s))).
+  { unfold writes. apply in_flat_map. exists (TvWrite t tag size ret now). split; [exact Hin|left; reflexivity]. }
+  destruct (W _ Hw) as [_ E]. exact E.
 Qed.
